@@ -25,7 +25,7 @@ func scenHistory(s *spec.RunSpec, res *spec.RunResult, finish func(*World)) {
 	w.start = time.Now()
 	end := func() {
 		res.Completed = true
-		res.NonTrivial = w.checks > 0
+		res.NonTrivial = w.checks.Load() > 0
 		res.VirtualUs = w.nowUs()
 		for k, v := range w.probes {
 			res.Probes[k] += v
@@ -33,7 +33,7 @@ func scenHistory(s *spec.RunSpec, res *spec.RunResult, finish func(*World)) {
 		for k, v := range w.faults {
 			res.Faults[k] += v
 		}
-		res.Checks = w.checks
+		res.Checks = w.checks.Load()
 		res.EventHash = fmt.Sprintf("%016x", w.histHash)
 		res.Events = w.histEvents
 		for k := range w.states {
@@ -102,10 +102,10 @@ func (w *World) histReplayCache(h *spec.History) {
 			got := c.IsDuplicate(item, tag)
 			now := time.Since(w.start)
 			e := seen[op.Item]
-			w.checks++
+			w.checks.Add(1)
 			w.histLog("dup item=%d tag=%d -> %v", op.Item, op.Tag, got)
 			if e == nil {
-				w.probes["rc-never-seen"]++
+				w.probe("rc-never-seen")
 				if got {
 					w.violate("C06", "cache-invents-replay", "step %d: item %d was never offered before but IsDuplicate returned true (cap %d interval %v)", i, op.Item, h.Cap, interval)
 				}
@@ -127,11 +127,11 @@ func (w *World) histReplayCache(h *spec.History) {
 					}
 				}
 				if remembered {
-					w.probes["rc-within-contract"]++
+					w.probe("rc-within-contract")
 				} else if age >= interval {
-					w.probes["rc-older-than-interval"]++
+					w.probe("rc-older-than-interval")
 				} else {
-					w.probes["rc-pushed-out-by-capacity"]++
+					w.probe("rc-pushed-out-by-capacity")
 				}
 				if mustDup && !got {
 					w.violate("C06", "cache-forgets-recent-entry", "step %d: item %d was offered %v ago (< interval %v) and followed by %d < cap %d other calls, tag rule says duplicate, but IsDuplicate returned false", i, op.Item, age, interval, newer, h.Cap)
@@ -170,7 +170,7 @@ func (w *World) histCounter(h *spec.History) {
 	dumped := false
 	lastHistLen := 0
 	check := func(i int, what string) {
-		w.checks++
+		w.checks.Add(1)
 		if got := c.Load(); got != total {
 			w.violate("C19", "counter-total-wrong", "step %d (%s): Load()=%d, sum of increments=%d", i, what, got, total)
 		}
@@ -188,7 +188,7 @@ func (w *World) histCounter(h *spec.History) {
 			w.violate("C19", "history-sum-differs-from-total", "step %d (%s): sum of history=%d, total=%d (%d entries)", i, what, sum, total, len(pb.GetHistory()))
 		}
 		if n := len(pb.GetHistory()); n < lastHistLen {
-			w.probes["counter-rollup-shrunk-history"]++
+			w.probe("counter-rollup-shrunk-history")
 			lastHistLen = n
 		} else {
 			lastHistLen = n
@@ -199,10 +199,10 @@ func (w *World) histCounter(h *spec.History) {
 		case "sleep":
 			time.Sleep(time.Duration(op.SleepUs) * time.Microsecond)
 			if op.SleepUs > int64(2*time.Hour/time.Microsecond) {
-				w.probes["counter-gap-over-2h"]++
+				w.probe("counter-gap-over-2h")
 			}
 			if op.SleepUs > int64(8*24*time.Hour/time.Microsecond) {
-				w.probes["counter-gap-over-8d"]++
+				w.probe("counter-gap-over-8d")
 			}
 		case "add":
 			n := op.Count
@@ -228,7 +228,7 @@ func (w *World) histCounter(h *spec.History) {
 				t1, t2 = t2, t1
 			}
 			got := c.DeltaBetween(t1, t2)
-			w.checks++
+			w.checks.Add(1)
 			w.histLog("window %v..%v -> %d", op.FromUs, op.ToUs, got)
 			if got > total || got < 0 {
 				w.violate("C19", "window-exceeds-total", "step %d: DeltaBetween(now-%dus, now-%dus)=%d but the total is %d", i, op.FromUs, op.ToUs, got, total)
@@ -269,7 +269,7 @@ func (w *World) histCounter(h *spec.History) {
 				return
 			}
 			c = nm.(*metrics.Counter)
-			w.probes["counter-restart"]++
+			w.probe("counter-restart")
 			w.histLog("restart total=%d", total)
 			check(i, "restart")
 		case "dump":
@@ -291,7 +291,7 @@ func (w *World) histCounter(h *spec.History) {
 			before := c.Load()
 			err := metrics.LoadMetricsFromDump()
 			after := c.Load()
-			w.checks++
+			w.checks.Add(1)
 			w.histLog("reload cut=%d err=%v %d->%d", op.Cut, err != nil, before, after)
 			if after < before {
 				w.violate("C19", "reload-decreases-total", "step %d: total went from %d to %d on LoadMetricsFromDump (err=%v)", i, before, after, err)
@@ -338,7 +338,7 @@ func (w *World) histKeyCache(h *spec.History) {
 			t := w.start.Add(time.Duration(op.AtUs) * time.Microsecond)
 			cur := refproto.SlotOf(t.Unix())
 			blocks, epoch, _, err := cipher.VerifCipherListAt(hp[:], t)
-			w.checks++
+			w.checks.Add(1)
 			w.histLog("lookup at=%d epoch=%d err=%v", op.AtUs, epoch, err != nil)
 			if err != nil {
 				w.violate("C08", "key-cache-error", "step %d: lookup at %v failed: %v", i, t, err)
@@ -369,7 +369,7 @@ func (w *World) histKeyCache(h *spec.History) {
 			for _, s := range []int64{cur - 240, cur - 120, cur, cur + 120, cur + 240} {
 				_, _, err := dec.VerifTryDecryptAt(ct(s, t.Unix()), nil, t)
 				near := s >= cur-120 && s <= cur+120
-				w.checks++
+				w.checks.Add(1)
 				if near && err != nil {
 					w.violate("C08", "decryptor-misses-candidate-slot", "step %d: StatelessDecryptor at %v (slot %d) failed to open a segment keyed for slot %d", i, t.UTC(), cur, s)
 				}
